@@ -187,7 +187,7 @@ def consume_rule(ctx, P, fns):
                     if (cal, ai) not in cons:
                         continue
                     d = paths.local_of(f, a)
-                    if d is None:
+                    if d is None or d in f.new_aliases:      # a local that merely names a field of another object is not owned
                         continue
                     ctx.touch(f)
                     n += 1
